@@ -764,6 +764,231 @@ theorem trav_real_partial (p : Params K) (hmin : 0 < p.minLen) (u : Tid) (s0 s1 
     · rw [hret] at h; cases h
     · exact h π hres
 
+/-! ## no phantom: every pair handed over was stored by a writer (all schedules, `Clear` included) -/
+
+/-- the pair a step of a thread at `dcCommit` stores (none if the step deletes or is not a commit) -/
+def commitOf (l : L K V) : Option (K × V) :=
+  if l.pc = .dcCommit then
+    match opKey l, l.fnres with
+    | some k, some (nv, false) => some (k, nv)
+    | _, _ => none
+  else none
+
+/-- the pairs stored by the commit steps of a run -/
+def commits (p : Params K) : St K V → List (Tid × Choice K V) → List (K × V)
+  | _, [] => []
+  | s, (t, c) :: rest =>
+    match Model.Proto.step p s t c with
+    | some s' => (commitOf (s.l t)).toList ++ commits p s' rest
+    | none => []
+
+theorem mem_erase_sub (m : AMap K V) (k : K) (e : K × V) (h : e ∈ m.erase k) : e ∈ m :=
+  (List.mem_filter.mp h).1
+
+theorem mem_set_sub (m : AMap K V) (k : K) (v : V) (e : K × V) (h : e ∈ m.set k v) : e = (k, v) ∨ e ∈ m := by
+  unfold AMap.set at h
+  rcases List.mem_cons.mp h with h | h
+  · exact Or.inl h
+  · exact Or.inr (mem_erase_sub m k e h)
+
+theorem mem_copyInto_sub (d : AMap K V) (es : List (K × V)) (e : K × V) (h : e ∈ copyInto d es) : e ∈ d ∨ e ∈ es := by
+  induction es generalizing d with
+  | nil => exact Or.inl h
+  | cons x xs ih =>
+    rw [copyInto_cons] at h
+    rcases ih _ h with h1 | h1
+    · rcases mem_set_sub d x.1 x.2 e h1 with h2 | h2
+      · exact Or.inr (by rw [h2]; exact List.mem_cons_self)
+      · exact Or.inl h2
+    · exact Or.inr (List.mem_cons_of_mem _ h1)
+
+/-- the pairs a thread holds in its traversal registers all belong to `C` -/
+structure LProv (C : List (K × V)) (l : L K V) : Prop where
+  vis : ∀ e ∈ l.visited, e ∈ C
+  snap : ∀ e ∈ l.snap, e ∈ C
+  fr : ∀ f ∈ l.frames, (∀ e ∈ f.visited, e ∈ C) ∧ (∀ e ∈ f.snap, e ∈ C)
+  res : ∀ π, l.result = some (.visits π) → ∀ e ∈ π, e ∈ C
+
+theorem lprov_mono (C D : List (K × V)) (h : ∀ e ∈ C, e ∈ D) (l : L K V) (hl : LProv C l) : LProv D l :=
+  ⟨fun e he => h e (hl.vis e he), fun e he => h e (hl.snap e he),
+   fun f hf => ⟨fun e he => h e ((hl.fr f hf).1 e he), fun e he => h e ((hl.fr f hf).2 e he)⟩,
+   fun π hπ e he => h e (hl.res π hπ e he)⟩
+
+theorem popContAux_regs (l : L K V) :
+    (popCont.popContAux l).visited = l.visited ∧ (popCont.popContAux l).snap = l.snap := by
+  unfold popCont.popContAux; split <;> simp
+
+theorem popCont_regs (l : L K V) : (popCont l).visited = l.visited ∧ (popCont l).snap = l.snap := by
+  unfold popCont; split <;> (try split) <;> (try simp)
+  rename_i cs _ _
+  exact popContAux_regs { l with conts := cs }
+
+theorem startOp_vis (l : L K V) (op : POp K V) (e : K × V) (h : e ∈ (startOp l op).visited) : e ∈ l.visited := by
+  rcases op with _ | ⟨_, _, _ | _, _⟩ | _ | _ | _ <;> simp [startOp] at h <;> exact h
+
+theorem startOp_snap (l : L K V) (op : POp K V) (e : K × V) (h : e ∈ (startOp l op).snap) : e ∈ l.snap := by
+  rcases op with _ | ⟨_, _, _ | _, _⟩ | _ | _ | _ <;> simp [startOp] at h <;> exact h
+
+/-- where the pairs in the `visited` register of the stepping thread come from -/
+theorem vis_step (p : Params K) (t : Tid) (g : G K V) (l : L K V) (c : Choice K V) (g' : G K V) (l' : L K V)
+    (hs : tstep p t g l c = some (g', l')) (e : K × V) (he : e ∈ l'.visited) :
+    e ∈ l.visited ∨ e ∈ l.snap ∨ ∃ f ∈ l.frames, e ∈ f.visited := by
+  have hP := (popCont_regs l).1
+  have hS := fun (l : L K V) op => startOp_vis l op e
+  cases hpc : l.pc <;> simp only [tstep, hpc] at hs <;> (repeat' split at hs) <;>
+    simp only [Option.some.injEq, reduceCtorEq, Prod.mk.injEq] at hs <;> obtain ⟨-, rfl⟩ := hs <;>
+    first
+    | exact Or.inl he
+    | exact Or.inl (hS _ _ he)
+    | (rw [hP] at he; exact Or.inl he)
+    | (simp_all [callResize, callWait]; done)
+    | (have := hS _ _ he; exact Or.inl this)
+    | (simp only [List.mem_append, List.mem_singleton, List.mem_cons] at he; grind)
+
+/-- where the pairs in the `snap` register of the stepping thread come from -/
+theorem snap_step (p : Params K) (t : Tid) (g : G K V) (l : L K V) (c : Choice K V) (g' : G K V) (l' : L K V)
+    (hs : tstep p t g l c = some (g', l')) (e : K × V) (he : e ∈ l'.snap) :
+    e ∈ l.snap ∨ e ∈ bucketEntries p g l.tbl l.ri ∨ ∃ f ∈ l.frames, e ∈ f.snap := by
+  have hP := (popCont_regs l).2
+  have hS := fun (l : L K V) op => startOp_snap l op e
+  cases hpc : l.pc <;> simp only [tstep, hpc] at hs <;> (repeat' split at hs) <;>
+    simp only [Option.some.injEq, reduceCtorEq, Prod.mk.injEq] at hs <;> obtain ⟨-, rfl⟩ := hs <;>
+    first
+    | exact Or.inl he
+    | exact Or.inl (hS _ _ he)
+    | (rw [hP] at he; exact Or.inl he)
+    | (simp_all [callResize, callWait]; done)
+    | (have := hS _ _ he; exact Or.inl this)
+    | (simp only [List.mem_append, List.mem_singleton, List.mem_cons] at he; grind)
+
+/-- the traversal registers of the stepping thread stay inside `C`, given that the bucket it snapshots does -/
+theorem lprov_step (p : Params K) (t : Tid) (g : G K V) (l : L K V) (c : Choice K V) (g' : G K V) (l' : L K V)
+    (C : List (K × V)) (hs : tstep p t g l c = some (g', l')) (hl : LProv C l)
+    (hb : ∀ e ∈ bucketEntries p g l.tbl l.ri, e ∈ C) : LProv C l' := by
+  refine ⟨fun e he => ?_, fun e he => ?_, fun f hf => ?_, fun π hπ e he => ?_⟩
+  · rcases vis_step p t g l c g' l' hs e he with h | h | ⟨f, hf, h⟩
+    · exact hl.vis e h
+    · exact hl.snap e h
+    · exact (hl.fr f hf).1 e h
+  · rcases snap_step p t g l c g' l' hs e he with h | h | ⟨f, hf, h⟩
+    · exact hl.snap e h
+    · exact hb e h
+    · exact (hl.fr f hf).2 e h
+  · rcases frames_step p t g l c g' l' hs with h | ⟨-, h⟩ | ⟨-, f0, fs, h0, h1, -⟩
+    · exact hl.fr f (by rw [← h]; exact hf)
+    · rw [h] at hf
+      rcases List.mem_cons.mp hf with rfl | hf
+      · exact ⟨hl.vis, hl.snap⟩
+      · exact hl.fr f hf
+    · exact hl.fr f (by rw [h0]; exact List.mem_cons_of_mem _ (by rw [← h1]; exact hf))
+  · rcases result_step p t g l c g' l' hs with h | h | ⟨-, h⟩ | ⟨-, e0, rest, hsn, h⟩
+    · exact hl.res π (by rw [← h]; exact hπ) e he
+    · exact absurd hπ (h π)
+    · rw [h] at hπ; cases hπ; exact hl.vis e he
+    · rw [h] at hπ; cases hπ
+      rcases List.mem_append.mp he with he | he
+      · exact hl.vis e he
+      · exact hl.snap e (by rw [hsn]; simp at he; rw [he]; exact List.mem_cons_self)
+
+/-- the provenance invariant of a state, relative to a list `C` of pairs: whatever is in a table generation or in a
+traversal register is in `C` -/
+def Prov (C : List (K × V)) (s : St K V) : Prop :=
+  (∀ T, ∀ e ∈ (s.g.tables T).data, e ∈ C) ∧ ∀ u, LProv C (s.l u)
+
+/-- what a step adds to the tables comes from the tables or is the pair the commit stores -/
+theorem data_prov_step (p : Params K) (hmin : 0 < p.minLen) (t : Tid) (g : G K V) (l : L K V) (c : Choice K V) (g' : G K V)
+    (l' : L K V) (hgd : GD g) (hd : LD p g l) (hs : tstep p t g l c = some (g', l')) (T : Nat) (e : K × V)
+    (he : e ∈ (g'.tables T).data) : (∃ T0, e ∈ (g.tables T0).data) ∨ commitOf l = some e := by
+  by_cases h1 : l.pc = .dcCommit
+  · obtain ⟨k, nv, del, hk, hf, -, -, -, hcase⟩ := commit_shape p t g l c g' l' h1 hs
+    rcases hcase with ⟨ov, -, -, -, e1⟩ | ⟨ov, -, hdel, -, e1⟩ | ⟨-, -, -, e1⟩ | ⟨-, hdel, -, e1⟩
+    · subst e1
+      left
+      simp only [setTbl] at he
+      split at he
+      · exact ⟨_, mem_erase_sub _ _ _ he⟩
+      · exact ⟨_, he⟩
+    · subst e1
+      simp only [setTbl] at he
+      split at he
+      · rcases mem_set_sub _ _ _ _ he with h | h
+        · right; subst hdel; simp [commitOf, h1, hk, hf, h]
+        · exact Or.inl ⟨_, h⟩
+      · exact Or.inl ⟨_, he⟩
+    · subst e1; exact Or.inl ⟨_, he⟩
+    · subst e1
+      simp only [setTbl] at he
+      split at he
+      · rcases mem_set_sub _ _ _ _ he with h | h
+        · right; subst hdel; simp [commitOf, h1, hk, hf, h]
+        · exact Or.inl ⟨_, h⟩
+      · exact Or.inl ⟨_, he⟩
+  left
+  by_cases h2 : l.pc = .rzDecide ∨ l.pc = .rzDecideSum
+  · obtain ⟨-, -, -, -, -, hcase⟩ := decide_shape p t g l c g' l' hmin (hgd.lenPos _) hd.shr h2 hs
+    rcases hcase with ⟨e1, -⟩ | ⟨len, -, -, -, hnew, hoth, -⟩
+    · subst e1; exact ⟨_, he⟩
+    · by_cases hT : T = g.ntables
+      · subst hT; rw [hnew] at he; simp [emptyTbl] at he
+      · rw [hoth T hT] at he; exact ⟨_, he⟩
+  by_cases h3 : l.pc = .rzCopyDo
+  · simp only [tstep, h3, Option.some.injEq, Prod.mk.injEq] at hs
+    obtain ⟨rfl, -⟩ := hs
+    simp only [setTbl] at he
+    split at he
+    · rcases mem_copyInto_sub _ _ _ he with h | h
+      · exact ⟨_, by simpa [PTbl.addCtr] using h⟩
+      · exact ⟨_, (List.mem_filter.mp h).1⟩
+    · exact ⟨_, he⟩
+  by_cases h4 : l.pc = .rzPublish
+  · simp only [tstep, h4, Option.some.injEq, Prod.mk.injEq] at hs
+    obtain ⟨rfl, -⟩ := hs; exact ⟨_, he⟩
+  · rw [((quiet_sameD p t g l c g' l' h1 h2 h3 h4 hs).2 T).2] at he; exact ⟨_, he⟩
+
+theorem prov_step (p : Params K) (hmin : 0 < p.minLen) (s s' : St K V) (t : Tid) (c : Choice K V) (C : List (K × V))
+    (hd : DInv p s) (hp : Prov C s) (hs : step p s t c = some s') :
+    Prov (C ++ (commitOf (s.l t)).toList) s' := by
+  obtain ⟨g', l', heq, rfl⟩ := step_cases p s s' t c hs
+  have hsub : ∀ e ∈ C, e ∈ C ++ (commitOf (s.l t)).toList := fun e he => List.mem_append_left _ he
+  refine ⟨fun T e he => ?_, fun u => ?_⟩
+  · rcases data_prov_step p hmin t s.g (s.l t) c g' l' hd.gd (hd.ld t) heq T e he with ⟨T0, h⟩ | h
+    · exact hsub e (hp.1 T0 e h)
+    · exact List.mem_append_right _ (by rw [h]; simp)
+  · dsimp only
+    by_cases hu : u = t
+    · rw [if_pos hu]
+      exact lprov_mono _ _ hsub _ (lprov_step p t s.g (s.l t) c g' l' C heq (hp.2 t)
+        (fun e he => hp.1 _ e (List.mem_filter.mp he).1))
+    · rw [if_neg hu]; exact lprov_mono _ _ hsub _ (hp.2 u)
+
+theorem prov_run (p : Params K) (hmin : 0 < p.minLen) (sched : List (Tid × Choice K V)) (s s' : St K V) (C : List (K × V))
+    (hi : Inv s) (hd : DInv p s) (hp : Prov C s) (hrun : run p s sched = some s') :
+    Prov (C ++ commits p s sched) s' := by
+  induction sched generalizing s C with
+  | nil => simp only [run, Option.some.injEq] at hrun; subst hrun; simpa [commits] using hp
+  | cons a rest ih =>
+    obtain ⟨t, c⟩ := a
+    simp only [run] at hrun
+    split at hrun
+    · rename_i s1 heq
+      have := ih s1 _ (inv_step p s s1 t c hi heq) (dinv_step p hmin s s1 t c hi hd heq)
+        (prov_step p hmin s s1 t c C hd hp heq) hrun
+      simpa [commits, heq, List.append_assoc] using this
+    · simp at hrun
+
+/-- **no phantom** (every schedule, `Clear` included): every pair in the list a `Range` call returns, in a snapshot or in
+any table generation was stored by the commit step of a writer - `Store`, `LoadOrStore`, `Compute`, … - earlier in
+the run, under that very key -/
+theorem range_no_phantom (p : Params K) (hmin : 0 < p.minLen) (sched : List (Tid × Choice K V)) (s : St K V)
+    (hrun : run p (init p) sched = some s) (u : Tid) (π : List (K × V))
+    (hres : (s.l u).result = some (.visits π)) : ∀ e ∈ π, e ∈ commits p (init p) sched := by
+  have h := prov_run p hmin sched (init p) s [] (inv_init p) (dinv_init p hmin)
+    ⟨fun T e he => by simp [init, emptyTbl] at he,
+     fun u => ⟨fun e he => by simp [init, L.init] at he, fun e he => by simp [init, L.init] at he,
+       fun f hf => by simp [init, L.init] at hf, fun π hπ => by simp [init, L.init] at hπ⟩⟩ hrun
+  rw [List.nil_append] at h
+  exact fun e he => (h.2 u).res π hres e he
+
 /-! ## an executable recogniser of windows (for concrete examples) -/
 
 /-- runs a schedule, checking the side conditions of `Trav` before every step; returns the states gone through and
